@@ -91,6 +91,7 @@ func c06Combiners(c *Ctx, p *Prog) {
 	}
 	facts := constFacts(fo, func(v ssa.Value) bool { return v == fo.Params[0] })
 	closures := map[string]*ssa.Function{}
+	decides := map[string]func(*Sym) (bool, bool){}
 	for _, b := range fo.Blocks {
 		ret, ok := b.Instrs[len(b.Instrs)-1].(*ssa.Return)
 		if !ok {
@@ -101,11 +102,57 @@ func c06Combiners(c *Ctx, p *Prog) {
 			continue
 		}
 		st := facts[b]
-		if st.Top || len(st.In) != 1 {
+		if st.Top || len(st.In) == 0 {
 			continue
 		}
 		for k := range st.In {
-			closures[opNames[k]] = mc.Fn.(*ssa.Function)
+			if opNames[k] == "" {
+				continue
+			}
+			clo := mc.Fn.(*ssa.Function)
+			closures[opNames[k]] = clo
+			// one closure may serve several operators through captured values computed from the operator
+			// (decisive := op == OpOr): those are answered per operator
+			known := map[string]bool{}
+			for i, bnd := range mc.Bindings {
+				var val ssa.Value = bnd
+				if al, ok := bnd.(*ssa.Alloc); ok {
+					var stores []*ssa.Store
+					for _, r := range *al.Referrers() {
+						if s, ok := r.(*ssa.Store); ok && s.Addr == al {
+							stores = append(stores, s)
+						}
+					}
+					if len(stores) != 1 {
+						continue
+					}
+					val = stores[0].Val
+				}
+				if bo, ok := val.(*ssa.BinOp); ok && (bo.Op == token.EQL || bo.Op == token.NEQ) {
+					var kc *ssa.Const
+					if bo.X == fo.Params[0] {
+						kc, _ = bo.Y.(*ssa.Const)
+					} else if bo.Y == fo.Params[0] {
+						kc, _ = bo.X.(*ssa.Const)
+					}
+					if kc != nil && kc.Value != nil {
+						eq := constKey(kc.Value) == k
+						known[clo.FreeVars[i].Name()] = eq == (bo.Op == token.EQL)
+					}
+				}
+			}
+			kn := known
+			decides[opNames[k]] = func(s *Sym) (bool, bool) {
+				if s.Op == "load" && len(s.Args) == 1 && s.Args[0].Op == "free" {
+					v, ok := kn[s.Args[0].Name]
+					return v, ok
+				}
+				if s.Op == "free" {
+					v, ok := kn[s.Name]
+					return v, ok
+				}
+				return false, false
+			}
 		}
 	}
 	for _, op := range []string{"OpAnd", "OpOr", "OpNot"} {
@@ -151,7 +198,26 @@ func c06Combiners(c *Ctx, p *Prog) {
 			continue
 		}
 		start := loopBodyStart(lp)
-		outs, why := e6Enumerate(func() *e6Interp { return &e6Interp{} }, start, lp.Header, iterStop(lp, start), 256)
+		mkOp := func() *e6Interp { return &e6Interp{Decide: decides[op]} }
+		evalBool := func(s *Sym) (bool, bool) {
+			for d := 0; d < 4; d++ {
+				if b, ok := s.boolConst(); ok {
+					return b, true
+				}
+				if decides[op] != nil {
+					if b, ok := decides[op](s); ok {
+						return b, true
+					}
+				}
+				if s.Op == "unop" && s.Tok == token.NOT {
+					b, ok := evalBoolOnce(s.Args[0], decides[op])
+					return !b, ok
+				}
+				break
+			}
+			return false, false
+		}
+		outs, why := e6Enumerate(mkOp, start, lp.Header, iterStop(lp, start), 256)
 		if why != "" {
 			c.Undecided(R, op+":table", site, why)
 			continue
@@ -227,7 +293,7 @@ func c06Combiners(c *Ctx, p *Prog) {
 					case kind != "M" && xv == shortOn:
 						if !returns || len(o.Results) != 2 || !(o.Results[0].isConst() && o.Results[0].IsNil) {
 							errs = append(errs, "a whole-result "+fmt.Sprint(shortOn)+" operand must decide the result at once")
-						} else if b, ok := o.Results[1].boolConst(); !ok || b != shortOn {
+						} else if b, ok := evalBool(o.Results[1]); !ok || b != shortOn {
 							errs = append(errs, fmt.Sprintf("short-circuit returns %v, must return %v", o.Results[1], shortOn))
 						}
 					case kind != "M":
@@ -251,22 +317,27 @@ func c06Combiners(c *Ctx, p *Prog) {
 				}
 			}
 		}
-		// exit: return (acc, identity)
-		for _, b := range fn.Blocks {
-			if lp.Blocks[b] && b != lp.Header {
-				continue
-			}
-			for _, s := range append([]*ssa.BasicBlock{b}, b.Succs...) {
-				if lp.Blocks[s] {
-					continue
-				}
-				if ret, ok := s.Instrs[len(s.Instrs)-1].(*ssa.Return); ok && b == lp.Header {
-					r0, r1 := retVal(ret, 0), retVal(ret, 1)
-					cst, isC := r1.(*ssa.Const)
-					okExit := r0 == acc && isC && cst.Value != nil && constant.BoolVal(cst.Value) == !shortOn
-					c.Check(okExit, R, op+"[end of operands]", p.pos(ret.Pos()), fmt.Sprintf("returns (accumulated mask, %v)", !shortOn),
+		// exit: return (acc, identity) — evaluated from the loop header on the path that leaves the loop
+		{
+			houts, hwhy := e6Enumerate(mkOp, lp.Header, nil, map[*ssa.BasicBlock]bool{lp.Header: true}, 256)
+			nExit := 0
+			if hwhy == "" {
+				for _, o := range houts {
+					if o.Term != "return" || len(o.Results) != 2 || len(o.Actions) > 0 {
+						continue
+					}
+					// the path that took no operand: its first result is the accumulator as it entered the header
+					if o.Results[0].String() != o.Val(acc).String() {
+						continue
+					}
+					nExit++
+					b, ok := evalBool(o.Results[1])
+					c.Check(ok && b == !shortOn, R, op+"[end of operands]", site, fmt.Sprintf("returns (accumulated mask, %v)", !shortOn),
 						fmt.Sprintf("after the last operand the combiner must return the accumulated mask, or whole-result %v when there was none", !shortOn))
 				}
+			}
+			if nExit == 0 {
+				c.Undecided(R, op+"[end of operands]", site, "the return after the last operand was not found "+hwhy)
 			}
 		}
 	}
@@ -363,7 +434,37 @@ func evalInt(v ssa.Value, env map[ssa.Value]int64) (int64, bool) {
 			return trunc(^n, x.Type()), true
 		case token.SUB:
 			return trunc(-n, x.Type()), true
+		case token.NOT:
+			if n == 0 {
+				return 1, true
+			}
+			return 0, true
 		}
+	case *ssa.Call:
+		// a small helper of the same program: evaluate its (single-block) body with the arguments bound
+		sc := x.Call.StaticCallee()
+		if sc == nil || len(sc.Blocks) != 1 {
+			return 0, false
+		}
+		ret, ok := sc.Blocks[0].Instrs[len(sc.Blocks[0].Instrs)-1].(*ssa.Return)
+		if !ok || len(ret.Results) != 1 {
+			return 0, false
+		}
+		env2 := map[ssa.Value]int64{}
+		for k, v := range env {
+			env2[k] = v
+		}
+		for i, a := range x.Call.Args {
+			if i < len(sc.Params) {
+				if n, ok := evalInt(a, env); ok {
+					env2[sc.Params[i]] = n
+				}
+			}
+		}
+		if evalIntPrepare != nil {
+			evalIntPrepare(sc, env2)
+		}
+		return evalInt(ret.Results[0], env2)
 	case *ssa.BinOp:
 		a, ok1 := evalInt(x.X, env)
 		b, ok2 := evalInt(x.Y, env)
@@ -425,6 +526,44 @@ func evalInt(v ssa.Value, env map[ssa.Value]int64) (int64, bool) {
 			} else {
 				r = int64(uint64(trunc(a, x.Type())) >> uint(b))
 			}
+		case token.EQL, token.NEQ, token.LSS, token.LEQ, token.GTR, token.GEQ:
+			var t bool
+			if bt, ok := x.X.Type().Underlying().(*types.Basic); ok && bt.Info()&types.IsUnsigned != 0 {
+				ua, ub := uint64(a), uint64(b)
+				switch x.Op {
+				case token.EQL:
+					t = ua == ub
+				case token.NEQ:
+					t = ua != ub
+				case token.LSS:
+					t = ua < ub
+				case token.LEQ:
+					t = ua <= ub
+				case token.GTR:
+					t = ua > ub
+				case token.GEQ:
+					t = ua >= ub
+				}
+			} else {
+				switch x.Op {
+				case token.EQL:
+					t = a == b
+				case token.NEQ:
+					t = a != b
+				case token.LSS:
+					t = a < b
+				case token.LEQ:
+					t = a <= b
+				case token.GTR:
+					t = a > b
+				case token.GEQ:
+					t = a >= b
+				}
+			}
+			if t {
+				return 1, true
+			}
+			return 0, true
 		default:
 			return 0, false
 		}
@@ -432,6 +571,9 @@ func evalInt(v ssa.Value, env map[ssa.Value]int64) (int64, bool) {
 	}
 	return 0, false
 }
+
+// evalIntPrepare lets a rule pre-bind values (field loads) in a callee before it is evaluated.
+var evalIntPrepare func(fn *ssa.Function, env map[ssa.Value]int64)
 
 func c06Bits(c *Ctx, p *Prog) {
 	const R = "C06/R3"
@@ -546,39 +688,54 @@ func c06Bits(c *Ctx, p *Prog) {
 			c.Undecided(R, "anchor:Match."+name, "", "method not found")
 			continue
 		}
-		// the shifted constant and the loop index
-		var pad *ssa.BinOp
-		var nLoad ssa.Value
-		var idx ssa.Value
-		eachInstr(fn, func(_ *ssa.BasicBlock, in ssa.Instruction) {
-			switch x := in.(type) {
-			case *ssa.BinOp:
-				if x.Op == token.SHL {
-					if _, isC := x.X.(*ssa.Const); isC {
-						pad = x
-					}
-				}
-			case *ssa.UnOp:
-				if f, _ := loadOfField(x); f == nF {
-					nLoad = x
-				}
-			}
-		})
-		for _, lp := range naturalLoops(fn) {
-			for _, in := range lp.Header.Instrs {
-				if phi, ok := in.(*ssa.Phi); ok && isInteger(phi.Type()) {
-					// range index: the value used inside is phi+1
-					for _, r := range *phi.Referrers() {
-						if bo, ok := r.(*ssa.BinOp); ok && bo.Op == token.ADD {
-							idx = bo
+		// Evaluate one loop iteration concretely for every n, every word index and a set of word values, following the
+		// branches (helper calls are evaluated in place): All must return false exactly when a bit below n is clear in
+		// the word, Any must return true exactly when a bit below n is set; otherwise the scan goes on.
+		var lp *loopInfo
+		for _, l := range naturalLoops(fn) {
+			lp = l
+		}
+		if lp == nil {
+			c.Undecided(R, "Match."+name+":padding", p.pos(fn.Pos()), "no loop over the mask words")
+			continue
+		}
+		var idxPhi *ssa.Phi
+		rangeStyle := false
+		for _, in := range lp.Header.Instrs {
+			if phi, ok := in.(*ssa.Phi); ok && isInteger(phi.Type()) {
+				idxPhi = phi
+				for _, r := range *phi.Referrers() {
+					if bo, ok := r.(*ssa.BinOp); ok && bo.Op == token.ADD {
+						if k, ok := constInt(bo.Y); ok && k == 1 {
+							// range loops index with phi+1 (phi starts at -1)
+							for j, e := range phi.Edges {
+								if !lp.Blocks[lp.Header.Preds[j]] {
+									if k0, ok := constInt(e); ok && k0 == -1 {
+										rangeStyle = true
+									}
+								}
+							}
 						}
 					}
 				}
 			}
 		}
-		if pad == nil || idx == nil {
-			c.Undecided(R, "Match."+name+":padding", p.pos(fn.Pos()), "padding expression not recognised")
+		start := loopBodyStart(lp)
+		if idxPhi == nil || start == nil {
+			c.Undecided(R, "Match."+name+":padding", p.pos(fn.Pos()), "word loop not recognised")
 			continue
+		}
+		bindLoads := func(f *ssa.Function, env map[ssa.Value]int64, n, x int64) {
+			eachInstr(f, func(_ *ssa.BasicBlock, in ssa.Instruction) {
+				if u, ok := in.(*ssa.UnOp); ok && u.Op == token.MUL {
+					if fl, _ := loadOfField(u); fl == nF {
+						env[u] = n
+					}
+					if _, isIA := u.X.(*ssa.IndexAddr); isIA && isInteger(u.Type()) {
+						env[u] = x
+					}
+				}
+			})
 		}
 		okAll := true
 		detail := ""
@@ -587,39 +744,89 @@ func c06Bits(c *Ctx, p *Prog) {
 		for n := int64(1); n <= maxN; n++ {
 			words := (n + W - 1) / W
 			for i := int64(0); i < words; i++ {
-				env := map[ssa.Value]int64{idx: i}
-				// every load of m.n
-				eachInstr(fn, func(_ *ssa.BasicBlock, in ssa.Instruction) {
-					if u, ok := in.(*ssa.UnOp); ok {
-						if f, _ := loadOfField(u); f == nF {
-							env[u] = n
-						}
-					}
-				})
-				got, ok := evalInt(pad, env)
-				var want int64
+				var valid int64
 				for j := int64(0); j < W; j++ {
-					if i*W+j >= n {
-						want |= 1 << uint(j)
+					if i*W+j < n {
+						valid |= 1 << uint(j)
 					}
 				}
-				want &= full
-				cases++
-				if !ok {
-					okAll = false
-					detail = fmt.Sprintf("for n=%d, word %d the padding shift is invalid (negative count panics)", n, i)
-					break outer
+				samples := []int64{0, valid, full, full &^ valid, valid &^ 1, 1, valid & (full << 1)}
+				if hb := highestBit(valid); hb >= 0 {
+					samples = append(samples, valid&^(1<<uint(hb)), 1<<uint(hb), (full&^valid)|(1<<uint(hb)))
 				}
-				if got != want {
-					okAll = false
-					detail = fmt.Sprintf("for a result with %d measurements, word %d is padded with %#x; the bits at positions >= n are %#x: measurements are ignored or phantom bits counted", n, i, got, want)
-					break outer
+				for _, x := range samples {
+					x &= full
+					env := map[ssa.Value]int64{}
+					if rangeStyle {
+						env[idxPhi] = i - 1
+					} else {
+						env[idxPhi] = i
+					}
+					bindLoads(fn, env, n, x)
+					evalIntPrepare = func(f *ssa.Function, e map[ssa.Value]int64) { bindLoads(f, e, n, x) }
+					outcome := "stuck"
+					b := start
+					for steps := 0; steps < 16; steps++ {
+						last := b.Instrs[len(b.Instrs)-1]
+						var next *ssa.BasicBlock
+						switch t := last.(type) {
+						case *ssa.If:
+							v, ok := evalInt(t.Cond, env)
+							if !ok {
+								outcome = "cannot evaluate " + valStr(t.Cond)
+							} else if v != 0 {
+								next = b.Succs[0]
+							} else {
+								next = b.Succs[1]
+							}
+						case *ssa.Jump:
+							next = b.Succs[0]
+						case *ssa.Return:
+							if k, ok := t.Results[0].(*ssa.Const); ok && k.Value != nil {
+								outcome = "return " + k.Value.String()
+							} else {
+								outcome = "return ?"
+							}
+						}
+						if next == nil {
+							break
+						}
+						if next == lp.Header || !lp.Blocks[next] && len(next.Instrs) > 0 {
+							if next == lp.Header {
+								outcome = "continue"
+								break
+							}
+						}
+						b = next
+					}
+					evalIntPrepare = nil
+					want := "continue"
+					if name == "All" && x&valid != valid {
+						want = "return false"
+					}
+					if name == "Any" && x&valid != 0 {
+						want = "return true"
+					}
+					cases++
+					if outcome != want {
+						okAll = false
+						detail = fmt.Sprintf("for a result with %d measurements, word %d holding %#x (bits below n: %#x): %s does %q where %q is required: measurements are ignored or phantom bits counted", n, i, x, valid, name, outcome, want)
+						break outer
+					}
 				}
 			}
 		}
-		_ = nLoad
-		c.Check(okAll, R, "Match."+name+":padding", p.pos(fn.Pos()), fmt.Sprintf("padding equals the bits >= n for all n = 1..%d and all words (%d cases)", maxN, cases), detail)
+		c.Check(okAll, R, "Match."+name+":padding", p.pos(fn.Pos()), fmt.Sprintf("per word, %s decides on exactly the bits below n for all n = 1..%d, all words and %d word values", name, maxN, cases), detail)
 	}
+}
+
+func highestBit(v int64) int {
+	for j := 62; j >= 0; j-- {
+		if v&(1<<uint(j)) != 0 {
+			return j
+		}
+	}
+	return -1
 }
 
 // ---- R1 / R8 ----
@@ -1155,4 +1362,14 @@ func c06Memo(c *Ctx, p *Prog) {
 		ctl := findMemoSites(p.Funcs("benchunit"))
 		c.Check(len(ctl) >= 1, R, "control:tidy-cache-detected", "", "the cache detector finds the unit-tidying cache", "the cache detector no longer recognises the unit-tidying cache (positive control)")
 	}
+}
+
+func evalBoolOnce(s *Sym, decide func(*Sym) (bool, bool)) (bool, bool) {
+	if b, ok := s.boolConst(); ok {
+		return b, true
+	}
+	if decide != nil {
+		return decide(s)
+	}
+	return false, false
 }
